@@ -175,9 +175,11 @@ def main():
         if "replay" in v:
             path = v["replay"]
         else:
-            os.makedirs(rdir, exist_ok=True)
+            # found cases go to replays/ (or to a scratch dir when probing mutants: VERIF_NO_SAVE=1)
+            fdir = rdir if not os.environ.get("VERIF_NO_SAVE") else os.path.join(ROOT, ".build", "found", prop)
+            os.makedirs(fdir, exist_ok=True)
             h = core.case_hash(v["case"])
-            path = os.path.join(rdir, f"found-{h}.json")
+            path = os.path.join(fdir, f"found-{h}.json")
             with open(path, "w", encoding="utf-8") as f:
                 json.dump({"property": prop, "check": v["check"], "case": v["case"], "signature": v["signature"],
                            "message": v["message"], "details": v.get("details")}, f, indent=1, ensure_ascii=True)
